@@ -60,13 +60,16 @@ func universeReport(req *proto.RunReq) ([]proto.PkgReport, string) {
 		P := u.Package(path)
 		r := proto.PkgReport{Path: path}
 		if P == nil {
-			r.Problems = append(r.Problems, "U0:universe-has-no-package")
+			r.Problems = append(r.Problems, proto.Problem{Oracle: "U0", Class: "universe-has-no-package", Detail: path})
 			out = append(out, r)
 			continue
 		}
 		r.Module = P.Module() != nil
 		if !req.UniAll && !r.Module {
 			continue
+		}
+		if len(P.Files()) == 0 {
+			continue // "unsafe": a pseudo-package without source, nothing was loaded for it
 		}
 		checkPackage(u, P, &r)
 		out = append(out, r)
@@ -87,9 +90,9 @@ func checkPackage(u *gengotypes.Universe, P gengotypes.Package, r *proto.PkgRepo
 	fset := P.FileSet()
 	scope := tp.Scope()
 	var dig strings.Builder
-	bad := func(format string, args ...any) {
+	bad := func(oracle, class string, facts map[string]string, format string, args ...any) {
 		if len(r.Problems) < 40 {
-			r.Problems = append(r.Problems, fmt.Sprintf(format, args...))
+			r.Problems = append(r.Problems, proto.Problem{Oracle: oracle, Class: class, Detail: fmt.Sprintf(format, args...), Facts: facts})
 		}
 	}
 
@@ -129,20 +132,20 @@ func checkPackage(u *gengotypes.Universe, P gengotypes.Package, r *proto.PkgRepo
 			g, gok := got[n]
 			switch {
 			case wok && !gok:
-				bad("U1:%s:missing:%s", kind, n)
+				bad("U1", kind+"-missing", nil, "%s", n)
 			case !wok && gok:
-				bad("U1:%s:extra:%s@%s", kind, n, posString(fset, g.Pos()))
+				bad("U1", kind+"-extra", map[string]string{"scope": scopeOf(g)}, "%s@%s", n, posString(fset, g.Pos()))
 			case w != g:
-				bad("U1:%s:wrong-object:%s got@%s want@%s", kind, n, posString(fset, g.Pos()), posString(fset, w.Pos()))
+				bad("U1", kind+"-wrong-object", map[string]string{"scope": scopeOf(g)}, "%s got@%s want@%s", n, posString(fset, g.Pos()), posString(fset, w.Pos()))
 			}
 			if gok {
 				fmt.Fprintf(&dig, "%s %s %s\n", kind, n, posString(fset, g.Pos()))
 				if l := lookup(n); l != g {
-					bad("U1:%s:lookup-differs-from-table:%s", kind, n)
+					bad("U1", kind+"-lookup-differs-from-table", nil, "%s", n)
 				}
 			} else if wok {
 				if l := lookup(n); l != nil && !isNilObj(l) {
-					bad("U1:%s:lookup-finds-what-table-lacks:%s", kind, n)
+					bad("U1", kind+"-lookup-finds-what-table-lacks", nil, "%s", n)
 				}
 			}
 		}
@@ -209,6 +212,7 @@ func checkPackage(u *gengotypes.Universe, P gengotypes.Package, r *proto.PkgRepo
 			}
 		}
 		r.NMeth += len(wantAll)
+		facts := map[string]string{"generic": fmt.Sprint(named.TypeParams().Len() > 0)}
 		check := func(label string, want map[*types.Func]bool, got []*types.Func) {
 			gotSet := map[*types.Func]int{}
 			var names []string
@@ -220,15 +224,15 @@ func checkPackage(u *gengotypes.Universe, P gengotypes.Package, r *proto.PkgRepo
 			fmt.Fprintf(&dig, "methods %s %s %s\n", n, label, strings.Join(names, ","))
 			for m := range want {
 				if gotSet[m] == 0 {
-					bad("U2:%s:%s:missing-method:%s", n, label, m.Name())
+					bad("U2", "missing-method", facts, "%s (%s): %s", n, label, m.Name())
 				}
 			}
 			for m, c := range gotSet {
 				if !want[m] {
-					bad("U2:%s:%s:extra-method:%s", n, label, m.Name())
+					bad("U2", "extra-method", facts, "%s (%s): %s", n, label, m.Name())
 				}
 				if c > 1 {
-					bad("U2:%s:%s:duplicate-method:%s", n, label, m.Name())
+					bad("U2", "duplicate-method", facts, "%s (%s): %s", n, label, m.Name())
 				}
 			}
 		}
@@ -258,11 +262,12 @@ func checkPackage(u *gengotypes.Universe, P gengotypes.Package, r *proto.PkgRepo
 		g, ok := gotImports[p]
 		switch {
 		case !ok:
-			bad("U3:imports:missing-key:%s", p)
+			bad("U3", "missing-key", nil, "%s", p)
 		case g == nil || isNilPkg(g):
-			bad("U3:imports:nil-package:%s", p)
-		case g != u.Package(p):
-			bad("U3:imports:not-the-universe-package:%s", p)
+			bad("U3", "nil-package", nil, "%s", p)
+		case g != u.Package(p) && !(u.Package(p) == nil && g == u.Package("vendor/"+p)):
+			// (std packages import their vendored dependencies under vendor/<path>)
+			bad("U3", "not-the-universe-package", nil, "%s", p)
 		}
 		fmt.Fprintf(&dig, "import %s %v\n", p, ok && g != nil && !isNilPkg(g))
 	}
@@ -274,7 +279,7 @@ func checkPackage(u *gengotypes.Universe, P gengotypes.Package, r *proto.PkgRepo
 	}
 	sort.Strings(extra)
 	for _, p := range extra {
-		bad("U3:imports:extra-key:%s", p)
+		bad("U3", "extra-key", nil, "%s", p)
 	}
 
 	// ---- U4: location ------------------------------------------------------
@@ -286,7 +291,7 @@ func checkPackage(u *gengotypes.Universe, P gengotypes.Package, r *proto.PkgRepo
 			}
 			dir := filepath.Dir(fname)
 			if sd := P.SourceDir(); sd != dir {
-				bad("U4:sourcedir:%s != %s", sd, dir)
+				bad("U4", "sourcedir-wrong", nil, "%s != %s", sd, dir)
 			}
 			for _, d := range f.Decls {
 				pos := d.Pos()
@@ -295,9 +300,9 @@ func checkPackage(u *gengotypes.Universe, P gengotypes.Package, r *proto.PkgRepo
 				}
 				lp := u.LocateInPackage(pos)
 				if lp == nil || isNilPkg(lp) {
-					bad("U4:locate:nil@%s", posString(fset, pos))
+					bad("U4", "locate-nil", nil, "%s", posString(fset, pos))
 				} else if lp != P {
-					bad("U4:locate:wrong-package@%s got %s", posString(fset, pos), lp.Pkg().Path())
+					bad("U4", "locate-wrong-package", nil, "%s got %s", posString(fset, pos), lp.Pkg().Path())
 				}
 			}
 		}
@@ -327,4 +332,17 @@ func isNilPkg(p gengotypes.Package) bool {
 	// a typed nil pointer inside the interface
 	rv := reflect.ValueOf(p)
 	return rv.Kind() == reflect.Pointer && rv.IsNil()
+}
+
+func scopeOf(o types.Object) string {
+	if o == nil || o.Pkg() == nil {
+		return "none"
+	}
+	if _, ok := o.Type().(*types.TypeParam); ok {
+		return "typeparam"
+	}
+	if o.Parent() == o.Pkg().Scope() {
+		return "package"
+	}
+	return "local"
 }
